@@ -521,7 +521,27 @@ func TestHierarchyTable(t *testing.T) {
 			}
 		}
 	}
-	ev.R.Space("in / is-in over a two-level multi-parent store (diamond, cycle, dangling parent): every source x target, x target pairs", count)
+	// target sets whose members' type and id concatenate to the same bytes: every member has to stay a member
+	w2 := gen.World{
+		Store: ir.Store{{UID: ir.Ent("T0", "a"), Parents: []ir.Value{ir.Ent("A", "bc")}}, {UID: ir.Ent("T0", "b"), Parents: []ir.Value{ir.Ent("Ab", "c")}}, {UID: ir.Ent("T0", "c"), Parents: []ir.Value{ir.Ent("Abc", "")}}},
+		Req:   ir.Request{Principal: ir.Ent("T0", "a"), Action: ir.Ent("Action", "view"), Resource: ir.Ent("T0", "b"), Context: ir.Rec()},
+	}
+	twins := []ir.Value{ir.Ent("A", "bc"), ir.Ent("Ab", "c"), ir.Ent("Abc", "")}
+	for _, s := range []string{"a", "b", "c"} {
+		for _, pm := range [][]int{{0, 1, 2}, {2, 1, 0}, {1, 0, 2}, {0, 1}, {1, 0}, {1, 2}, {2, 1}, {0, 2}, {2, 0}} {
+			var vs []ir.Value
+			var es []*ir.Expr
+			for _, i := range pm {
+				vs = append(vs, twins[i])
+				es = append(es, ir.Lit(twins[i]))
+			}
+			count += 3
+			run(&Case{Expr: ir.Bin(ir.OpIn, ir.Lit(ir.Ent("T0", s)), ir.Lit(ir.Set(vs...))), World: w2}, "hierarchy-table", true, fail)
+			run(&Case{Expr: ir.Bin(ir.OpIn, ir.Lit(ir.Ent("T0", s)), ir.SetE(es...)), World: w2}, "hierarchy-table", true, fail)
+			run(&Case{Expr: ir.Bin(ir.OpContains, ir.Lit(ir.Set(vs...)), ir.Lit(twins[pm[len(pm)-1]])), World: w2}, "hierarchy-table", true, fail)
+		}
+	}
+	ev.R.Space("in / is-in over a two-level multi-parent store (diamond, cycle, dangling parent): every source x target, x target pairs; target sets of uids whose type+id concatenations coincide", count)
 }
 
 // TestConstructorTable: decimal() ip() datetime() duration() on valid, boundary and malformed literals.
